@@ -59,6 +59,8 @@ pub struct TimeoutOracle {
     synack_budgets: u64,
     late_handshakes: u64,
     clock_jumps: u64,
+    /// per endpoint: (ms of its latest step, largest gap between consecutive steps)
+    step_gap_ms: BTreeMap<usize, (u64, u64)>,
 }
 
 impl TimeoutOracle {
@@ -83,6 +85,7 @@ impl TimeoutOracle {
             synack_budgets: 0,
             late_handshakes: 0,
             clock_jumps: 0,
+            step_gap_ms: BTreeMap::new(),
         }
     }
 }
@@ -93,6 +96,16 @@ impl TimeoutOracle {
     fn ms(&self, ep: usize, local_ns: u64) -> u64 {
         local_ns.saturating_sub(self.base_ns.get(&ep).cloned().unwrap_or(0)) / 1_000_000
     }
+}
+
+/// Consecutive transmissions of one retry series more than 2 s + one step period apart.
+fn spacing_late(times: &[u64], gap_ms: u64) -> Option<(u64, u64)> {
+    for w in times.windows(2) {
+        if w[1] > w[0] + 2000 + gap_ms + 50 {
+            return Some((w[0], w[1]));
+        }
+    }
+    None
 }
 
 fn spacing_ok(times: &[u64]) -> Option<(u64, u64)> {
@@ -124,7 +137,11 @@ impl Oracle for TimeoutOracle {
             }
             Rec::Call { call, ep: Some(ep), local_ns, op: Op::Step { .. }, skipped: false, .. } => {
                 self.consumed_now.clear();
-                self.cur_step = Some((*ep, *call, self.ms(*ep, *local_ns)));
+                let now_ms = self.ms(*ep, *local_ns);
+                self.cur_step = Some((*ep, *call, now_ms));
+                let g = self.step_gap_ms.entry(*ep).or_insert((now_ms, 0));
+                g.1 = g.1.max(now_ms.saturating_sub(g.0));
+                g.0 = now_ms;
             }
             Rec::Consumed { bytes, src_addr, .. } => {
                 if let Some(t) = bytes.first() {
@@ -274,6 +291,28 @@ impl Oracle for TimeoutOracle {
                         }
                         if times.len() != 11 {
                             return viol(prop, "disconnect_resend_count", format!("endpoint {} reported a disconnect timeout after {} transmissions (exactly 1 + 10 expected)", key.0, times.len()), 0);
+                        }
+                    }
+                }
+                // ... and the resends come every 2 s (plus at most one step period), whatever else
+                // the endpoint's timer queue holds (scenarios with one connection per address)
+                if budget_check {
+                    let gap = |ep: usize| self.step_gap_ms.get(&ep).map_or(0, |g| g.1);
+                    for (ep, times) in self.syn_times.iter() {
+                        if let Some((a, b)) = spacing_late(times, gap(*ep)) {
+                            return viol(prop, "resend_late", format!("client {} transmitted consecutive connection requests at {} ms and {} ms (2 s apart expected; its steps are at most {} ms apart)", ep, a, b, gap(*ep)), 0);
+                        }
+                    }
+                    for (key, times) in self.disc_times.iter() {
+                        if let Some((a, b)) = spacing_late(times, gap(key.0)) {
+                            return viol(prop, "resend_late", format!("endpoint {} transmitted consecutive disconnect requests to {} at {} ms and {} ms (2 s apart expected; its steps are at most {} ms apart)", key.0, key.1, a, b, gap(key.0)), 0);
+                        }
+                    }
+                    for (key, times) in self.synack_times.iter() {
+                        if times.len() <= 11 {
+                            if let Some((a, b)) = spacing_late(times, gap(key.0)) {
+                                return viol(prop, "resend_late", format!("server {} transmitted consecutive SYN-ACKs to {} at {} ms and {} ms (2 s apart expected; its steps are at most {} ms apart)", key.0, key.1, a, b, gap(key.0)), 0);
+                            }
                         }
                     }
                 }
@@ -483,6 +522,17 @@ impl Oracle for DisconnectOracle {
                         let gap_c = self.max_step_gap_ns.get(caller).cloned().unwrap_or(0);
                         let caller_deadline = *t0 + 22_000_000_000 + 11 * gap_c + 1_000_000_000;
                         let caller_done = c.terminal.get(caller).map(|x| x.0);
+                        // "Error(Timeout) if the peer has become unreachable": in scenarios where
+                        // the peer stays reachable (only a bounded number of acknowledgements is
+                        // lost) the retries must end in Disconnect
+                        if cx.plan.param("peer_stays_reachable", 0.0) != 0.0 {
+                            if let Some((t, what)) = c.terminal.get(caller) {
+                                if what != "Disconnect" {
+                                    let d = format!("endpoint {} ended its disconnect attempt with {} at {:.3} s although its peer stayed reachable (only disconnect acknowledgements were lost, for a few seconds) and kept stepping", caller, what, *t as f64 / 1e9);
+                                    return viol(prop, "timeout_although_peer_reachable", d, 0);
+                                }
+                            }
+                        }
                         if caller_done.map_or(*t_ns > caller_deadline, |t| t > caller_deadline) {
                             let d = format!("endpoint {} first transmitted its disconnect request at {:.3} s and had not reached a terminal event by {:.3} s (22 s budget + 11 step periods of {:.3} s); terminal event: {:?}", caller, *t0 as f64 / 1e9, caller_deadline as f64 / 1e9, gap_c as f64 / 1e9, c.terminal.get(caller));
                             return viol(prop, "caller_not_terminal_within_budget", d, 0);
